@@ -1261,6 +1261,15 @@ func (pc *PeerConnection) SetRemoteDescription(desc SessionDescription) error {
 			}
 
 			if media.MediaName.Media == mediaSectionApplication {
+				// A local transceiver can only have this mid because an earlier CreateOffer,
+				// whose offer was never applied, handed it out. The remote peer uses the mid for
+				// its application section: release it, the next CreateOffer picks an unused one.
+				for _, t := range localTransceivers {
+					if t.Mid() == midValue {
+						t.mid.Store("")
+					}
+				}
+
 				continue
 			}
 
@@ -3012,7 +3021,7 @@ func (pc *PeerConnection) generateUnmatchedSDP(
 		}
 
 		if pc.configuration.AlwaysNegotiateDataChannels || pc.sctpTransport.dataChannelsRequested != 0 {
-			mediaSections = append(mediaSections, mediaSection{id: "data", data: true})
+			mediaSections = append(mediaSections, mediaSection{id: unusedMid("data", mediaSections), data: true})
 		}
 	} else {
 		for _, t := range transceivers {
@@ -3024,7 +3033,7 @@ func (pc *PeerConnection) generateUnmatchedSDP(
 
 		if pc.configuration.AlwaysNegotiateDataChannels || pc.sctpTransport.dataChannelsRequested != 0 {
 			mediaSections = append(mediaSections, mediaSection{
-				id:       strconv.Itoa(len(mediaSections)),
+				id:       unusedMid(strconv.Itoa(len(mediaSections)), mediaSections),
 				data:     true,
 				sctpInit: localSctpInit,
 			})
@@ -3053,6 +3062,32 @@ func (pc *PeerConnection) generateUnmatchedSDP(
 		pc.api.settingEngine.getSCTPMaxMessageSize(),
 		false,
 	)
+}
+
+// unusedMid returns preferred when no media section uses it as its mid. Otherwise it
+// returns the first decimal number, counting up from the number of media sections, that
+// no media section uses. A remote description may use any token as a mid, so the mid
+// picked for a new application section has to be checked against the mids in use.
+func unusedMid(preferred string, mediaSections []mediaSection) string {
+	inUse := func(mid string) bool {
+		for _, section := range mediaSections {
+			if section.id == mid {
+				return true
+			}
+		}
+
+		return false
+	}
+
+	if !inUse(preferred) {
+		return preferred
+	}
+
+	for n := len(mediaSections); ; n++ {
+		if mid := strconv.Itoa(n); !inUse(mid) {
+			return mid
+		}
+	}
 }
 
 // generateMatchedSDP generates a SDP and takes the remote state into account.
@@ -3206,13 +3241,13 @@ func (pc *PeerConnection) generateMatchedSDP(
 		if (pc.configuration.AlwaysNegotiateDataChannels || pc.sctpTransport.dataChannelsRequested != 0) &&
 			!alreadyHaveApplicationMediaSection {
 			if detectedPlanB {
-				mediaSections = append(mediaSections, mediaSection{id: "data", data: true})
+				mediaSections = append(mediaSections, mediaSection{id: unusedMid("data", mediaSections), data: true})
 			} else {
 				if localSctpInit == nil && pc.api.settingEngine.sctp.enableSnap {
 					localSctpInit = pc.sctpTransport.GetSctpInit()
 				}
 				mediaSections = append(mediaSections, mediaSection{
-					id:       strconv.Itoa(len(mediaSections)),
+					id:       unusedMid(strconv.Itoa(len(mediaSections)), mediaSections),
 					data:     true,
 					sctpInit: localSctpInit,
 				})
